@@ -262,7 +262,7 @@ def write_evidence(ctx, violations, known_reported, checker_cmd):
         'correspondence': ctx.corr,
         'distribution': ctx.counters,
         'variant_flags': ctx.variant,
-        'broken': [{'kind': k, 'name': n, 'detail': d} for k, n, d in ctx.broken],
+        'broken': [{'kind': k, 'name': n, 'detail': str(d)[:2000]} for k, n, d in ctx.broken],
         'known_findings_reported': known_reported,
         'exhaustive': bool(ctx.exhaustive),
         'notes': ctx.notes,
